@@ -29,7 +29,7 @@ def run(res, tier):
         grid = kc.grid_designs()
         if quick:
             grid = grid[::3]
-        designs = grid + kc.rand_designs("c01r", 40 if quick else 600)
+        designs = grid + kc.ff_designs()[4:7] + kc.rand_designs("c01r", 40 if quick else 600)
 
         def drive(c):
             c.run_modes(kernel.MODES, cycles=3 if quick else 8, seeds=(0, 1) if quick else (0, 1, 2, 3, 4, 5))
